@@ -2,6 +2,8 @@ package rules
 
 import (
 	"fmt"
+	"go/constant"
+	"go/token"
 
 	"golang.org/x/tools/go/ssa"
 
@@ -21,49 +23,97 @@ func checkC09(c *Ctx) {
 	noteSeq := c.field("server", "MsgClientNote", "SeqId")
 	isSeq := core.IsFieldLoad(noteSeq)
 
-	// the note handler: the Topic method that stores Note.SeqId into readID/recvID
-	var handler *ssa.Function
+	// the note handler: the Topic method that stores Note.SeqId into readID/recvID; the stores may
+	// sit in an extracted helper that receives the sequence number as a parameter
+	var handler, marker *ssa.Function
+	var markSite ssa.CallInstruction
 	for _, a := range append(c.censusField(readID), c.censusField(recvID)...) {
-		if a.Kind == "store" && isSeq(a.Instr.(*ssa.Store).Val) {
-			handler = a.Fn
+		if a.Kind != "store" {
+			continue
+		}
+		v := a.Instr.(*ssa.Store).Val
+		if isSeq(v) {
+			handler, marker = a.Fn, a.Fn
+			continue
+		}
+		p, ok := core.Strip(v).(*ssa.Parameter)
+		if !ok || handler != nil {
+			continue
+		}
+		idx := -1
+		for i, q := range a.Fn.Params {
+			if q == p {
+				idx = i
+			}
+		}
+		callers := c.callersOf(a.Fn)
+		if idx < 0 || len(callers) != 1 {
+			continue
+		}
+		if args := callers[0].Site.Common().Args; idx < len(args) && isSeq(args[idx]) {
+			handler, marker, markSite = callers[0].Caller, a.Fn, callers[0].Site
 		}
 	}
 	if handler == nil {
 		c.lost("note handler (function storing MsgClientNote.SeqId into perUserData.readID/recvID)")
 	}
 	r.Func(fk(handler))
+	if marker != handler {
+		r.Func(fk(marker))
+		subst := map[ssa.Value]ssa.Value{}
+		for i, p := range marker.Params {
+			if i < len(markSite.Common().Args) {
+				subst[p] = markSite.Common().Args[i]
+			}
+		}
+		core.ParamSubst = subst
+		defer func() { core.ParamSubst = nil }()
+	}
+	// guarded: behind the guard inside the function holding the store, or - for an extracted helper -
+	// the helper's call in the handler is behind it
+	guarded := func(st ssa.Instruction, g core.Guard) (bool, []int) {
+		ok, cnt := core.GuardedBy(marker, st, g)
+		if (!ok || cnt[0] == 0) && marker != handler {
+			saved := core.ParamSubst
+			core.ParamSubst = nil
+			ok, cnt = core.GuardedBy(handler, markSite.(ssa.Instruction), g)
+			core.ParamSubst = saved
+		}
+		return ok, cnt
+	}
 
 	r.Floor("C09.1-marks-monotone", 4)
 	gLast := core.LessGuard("lastID<SeqId", core.IsFieldLoad(lastID), isSeq, false)
-	for _, st := range core.StoresToField(handler, readID) {
-		construct := fk(handler) + ": readID = " + valDesc(st.Val, noteSeq.Name())
+	for _, st := range core.StoresToField(marker, readID) {
+		construct := fk(marker) + ": readID = " + valDesc(st.Val, noteSeq.Name())
 		if isSeq(st.Val) {
 			g := core.LessGuard("readID<SeqId", core.IsFieldLoad(readID), isSeq, true)
-			ok, cnt := core.GuardedBy(handler, st, g)
+			ok, cnt := guarded(st, g)
 			r.Check(ok && cnt[0] > 0, "C09.1-marks-monotone", construct, c.pos(st), "behind cached readID < note.SeqId", "the read mark can be set to a value not above the current one (moves backwards / duplicate accepted)")
 		} else {
 			r.Fail("C09.1-marks-monotone", construct, c.pos(st), "read mark assigned from something other than the note's sequence number in the note handler")
 		}
-		ok, cnt := core.GuardedBy(handler, st, gLast)
+		ok, cnt := guarded(st, gLast)
 		r.Check(ok && cnt[0] > 0, "C09.1b-marks-bounded", construct, c.pos(st), "behind note.SeqId <= lastID", "a mark beyond the last message id can be stored")
 	}
-	for _, st := range core.StoresToField(handler, recvID) {
-		construct := fk(handler) + ": recvID = " + valDesc(st.Val, noteSeq.Name())
+	for _, st := range core.StoresToField(marker, recvID) {
+		construct := fk(marker) + ": recvID = " + valDesc(st.Val, noteSeq.Name())
 		switch {
 		case isSeq(st.Val):
 			g := core.LessGuard("recvID<SeqId", core.IsFieldLoad(recvID), isSeq, true)
-			ok, cnt := core.GuardedBy(handler, st, g)
+			ok, cnt := guarded(st, g)
 			r.Check(ok && cnt[0] > 0, "C09.1-marks-monotone", construct, c.pos(st), "behind cached recvID < note.SeqId", "the received mark can be set to a value not above the current one (the guard compares a different mark or is missing)")
 		case core.IsFieldLoad(readID)(st.Val):
 			g := core.LessGuard("recvID<readID", core.IsFieldLoad(recvID), core.IsFieldLoad(readID), true)
-			ok, cnt := core.GuardedBy(handler, st, g)
-			r.Check(ok && cnt[0] > 0, "C09.1-marks-monotone", construct+" #"+retOrdinalOfStore(handler, st), c.pos(st), "received dragged up to read only when it is below it", "recvID is overwritten with readID without the recvID < readID test")
+			ok, cnt := guarded(st, g)
+			r.Check(ok && cnt[0] > 0, "C09.1-marks-monotone", construct+" #"+retOrdinalOfStore(marker, st), c.pos(st), "received dragged up to read only when it is below it", "recvID is overwritten with readID without the recvID < readID test")
 		default:
 			r.Fail("C09.1-marks-monotone", construct, c.pos(st), "received mark assigned from an unexpected value in the note handler")
 		}
-		ok, cnt := core.GuardedBy(handler, st, gLast)
-		r.Check(ok && cnt[0] > 0, "C09.1b-marks-bounded", construct+" #"+retOrdinalOfStore(handler, st), c.pos(st), "behind note.SeqId <= lastID", "a mark beyond the last message id can be stored")
+		ok, cnt := guarded(st, gLast)
+		r.Check(ok && cnt[0] > 0, "C09.1b-marks-bounded", construct+" #"+retOrdinalOfStore(marker, st), c.pos(st), "behind note.SeqId <= lastID", "a mark beyond the last message id can be stored")
 	}
+	core.ParamSubst = nil
 
 	// (2) writers census
 	r.Floor("C09.2-mark-writers", 6)
@@ -79,7 +129,7 @@ func checkC09(c *Ctx) {
 			construct := fmt.Sprintf("%s: store perUserData.%s", fk(a.Fn), fld)
 			role := ""
 			switch {
-			case a.Fn == handler:
+			case a.Fn == handler || a.Fn == marker:
 				role = "note handler (decided above)"
 			case core.IsFieldLoad(lastID)(st.Val):
 				role = "publisher's own marks = Topic.lastID"
@@ -163,47 +213,62 @@ func (c *Ctx) checkNotePermissions(handler *ssa.Function) {
 		ok2, c2 := core.GuardedBy(handler, s, core.BoolGuard("!isInactive", core.IsCallTo(inactive), false))
 		r.Check(ok2 && c2[0] > 0, "C09.3-note-permissions", construct+" / topic active", c.pos(s), "", "notes are processed on a paused/deleted topic")
 	}
-	// the read / recv (and typing) cases of the dispatch on Note.What lead straight to the permission
-	// test of the sender's effective mode, whose refusal edge is silent (C09.3b)
-	for what, g := range map[string]core.Guard{"read": gR, "recv": gR, "kp": gW, "kpa": gW, "kpv": gW} {
-		gWhat := core.EqGuard("What==\""+what+"\"", core.IsFieldLoad(whatF), core.IsConstString(what), true)
-		edges, cnt := core.PassEdges(handler, gWhat)
-		okCase := false
-		for e := range edges {
-			b := e.From.Succs[e.Idx]
-			for hops := 0; hops < 2 && b != nil; hops++ {
-				if ifi, isIf := b.Instrs[len(b.Instrs)-1].(*ssa.If); isIf {
-					if m, _ := g.Match(core.NormCond(ifi.Cond)); m {
-						okCase = true
-					}
-					break
-				}
-				if len(b.Succs) != 1 {
-					break
-				}
-				b = b.Succs[0]
+	// for each note kind: with Note.What fixed to that kind (every comparison of Note.What with a
+	// constant has a determined outcome, also inside an extracted predicate), the sinks are cut off
+	// once the pass edges of the required permission are removed
+	gRW := core.BoolGuard("!isReadOnly", core.IsCallTo(readonly), false)
+	type need struct {
+		name string
+		g    core.Guard
+		msg  string
+	}
+	kinds := []struct {
+		what  string
+		sinks []ssa.Instruction
+		needs []need
+	}{
+		{"read", sinks, []need{{"IsReader(sender's want&given)", gR, "a read note is processed for a sender without read permission"}}},
+		{"recv", sinks, []need{{"IsReader(sender's want&given)", gR, "a recv note is processed for a sender without read permission"}}},
+		{"kp", relay, []need{{"IsWriter(sender's want&given)", gW, "typing notifications are relayed from a user without write permission"}, {"topic writable", gRW, "typing notifications are relayed in a read-only topic"}}},
+		{"kpa", relay, []need{{"IsWriter(sender's want&given)", gW, "audio-recording notifications are relayed from a user without write permission"}, {"topic writable", gRW, "recording notifications are relayed in a read-only topic"}}},
+		{"kpv", relay, []need{{"IsWriter(sender's want&given)", gW, "video-recording notifications are relayed from a user without write permission"}, {"topic writable", gRW, "recording notifications are relayed in a read-only topic"}}},
+	}
+	nWhat := 0
+	for _, k := range kinds {
+		what := k.what
+		core.AssumeFn = func(a core.CondAtom) (bool, bool) {
+			if a.Op != token.EQL {
+				return false, false
+			}
+			var other ssa.Value
+			if core.IsFieldLoad(whatF)(a.X) {
+				other = a.Y
+			} else if core.IsFieldLoad(whatF)(a.Y) {
+				other = a.X
+			}
+			if other == nil {
+				return false, false
+			}
+			kc, ok := core.Strip(other).(*ssa.Const)
+			if !ok || kc.Value == nil || kc.Value.Kind() != constant.String {
+				return false, false
+			}
+			nWhat++
+			return true, constant.StringVal(kc.Value) == what
+		}
+		for _, nd := range k.needs {
+			cut, cnt := core.PassEdges(handler, nd.g)
+			for e := range core.AssumedCuts(handler) {
+				cut[e] = true
+			}
+			reach := core.ReachBlocks(handler, nil, cut)
+			for _, s := range k.sinks {
+				r.Check(!reach[s.Block()] && cnt[0] > 0, "C09.3-note-permissions", fmt.Sprintf("%s: {note %s} -> %s needs %s", fk(handler), what, describeCall(s), nd.name), c.pos(s), "", nd.msg)
 			}
 		}
-		r.Check(okCase && cnt[0] > 0, "C09.3-note-permissions", fk(handler)+": case \""+what+"\" tests the sender's effective permission first", c.P.Pos(handler.Pos()), "",
-			"a "+what+" note is processed without first testing the sender's effective read/write permission (ModeInvalid for removed users)")
+		core.AssumeFn = nil
 	}
-	// typing branch: relay needs W and a writable topic
-	for _, kp := range []string{"kp"} {
-		gKp := core.EqGuard("What==\""+kp+"\"", core.IsFieldLoad(whatF), core.IsConstString(kp), true)
-		edges, cnt := core.PassEdges(handler, gKp)
-		if cnt[0] == 0 {
-			r.Fail("C09.3-note-permissions", fk(handler)+": typing branch", "-", "no test of Note.What against \"kp\": undecided")
-			continue
-		}
-		for _, s := range relay {
-			cutW, _ := core.PassEdges(handler, gW)
-			found, _ := core.PathFromEdgeAvoiding(handler, edges, func(in ssa.Instruction) bool { return in == s }, nil, cutW)
-			r.Check(!found, "C09.3-note-permissions", fk(handler)+": typing relay needs W", c.pos(s), "", "typing notifications are relayed from a user without write permission")
-			cutRO, _ := core.PassEdges(handler, core.BoolGuard("!isReadOnly", core.IsCallTo(readonly), false))
-			found2, _ := core.PathFromEdgeAvoiding(handler, edges, func(in ssa.Instruction) bool { return in == s }, nil, cutRO)
-			r.Check(!found2, "C09.3-note-permissions", fk(handler)+": typing relay needs a writable topic", c.pos(s), "", "typing notifications are relayed in a read-only topic")
-		}
-	}
+	r.Check(nWhat > 0 && len(relay) > 0, "C09.3-note-permissions", fk(handler)+": dispatch on Note.What", c.P.Pos(handler.Pos()), "", "no comparison of Note.What with a constant found: undecided")
 	// every drop edge is silent and effect-free
 	drop := core.FailEdges(handler, gW, gR)
 	if bad := c.effectFreeFrom(handler, drop, nil); bad != nil {
